@@ -27,11 +27,18 @@
 (*   - a factor may contain elements of a reference; generating it at      *)
 (*     visit_table looks the reference up in context.origins, which is     *)
 (*     filled only after the reference was visited (crash "refkey").       *)
+(* The constant Fixed names the proposed repairs (the C06 / C14 diffs under *)
+(* proposed_fixes) the code under test already carries - detected by the   *)
+(* driver by probing the public API - so that the model stays the AS-IS    *)
+(* model of the tree it is compared with:                                  *)
+(*   "merge" "nonpredicate" "refelem" "not" "or" "eqjoin" "outer"          *)
 (* Hash equality of features is modelled as structural equality (the       *)
 (* generators avoid literals with colliding hashes: property C08).         *)
 (* Nothing in this module is a requirement: Hints.tla judges the hints.    *)
 (***************************************************************************)
 EXTENDS DslAst
+
+CONSTANT Fixed        \* subset of {"merge", "nonpredicate", "refelem", "not", "or", "eqjoin", "outer"}
 
 (* ---------------- series.Predicate.factors ---------------- *)
 IsColumn(e) == e.f = "col" /\ e.src.t = "table"
@@ -45,18 +52,31 @@ FGet(m, k) == (CHOOSE x \in m : x.t = k).p
 \* Factors.merge(left, right, operator)
 FMerge(L, R, op) ==
     IF L.crash # "" THEN L ELSE IF R.crash # "" THEN R
-    ELSE IF FKeys(R.m) \ FKeys(L.m) # {} THEN FCrash("merge")      \* "else right" instead of "else right[k]"
+    ELSE IF op = "or" /\ "or" \in Fixed
+    THEN \* repaired: a disjunction constrains a table only if both operands do
+         FOk({[t |-> k, p |-> IF FGet(L.m, k) # FGet(R.m, k) THEN Op(op, <<FGet(L.m, k), FGet(R.m, k)>>) ELSE FGet(L.m, k)] :
+                 k \in FKeys(L.m) \cap FKeys(R.m)})
+    ELSE IF FKeys(R.m) \ FKeys(L.m) # {} /\ "merge" \notin Fixed
+    THEN FCrash("merge")      \* "else right" instead of "else right[k]"
     ELSE FOk({[t |-> k,
-               p |-> IF k \in FKeys(R.m) /\ FGet(L.m, k) # FGet(R.m, k)
-                     THEN Op(op, <<FGet(L.m, k), FGet(R.m, k)>>) ELSE FGet(L.m, k)] : k \in FKeys(L.m)})
+               p |-> IF k \in FKeys(L.m) /\ k \in FKeys(R.m) /\ FGet(L.m, k) # FGet(R.m, k)
+                     THEN Op(op, <<FGet(L.m, k), FGet(R.m, k)>>)
+                     ELSE IF k \in FKeys(L.m) THEN FGet(L.m, k) ELSE FGet(R.m, k)] : k \in FKeys(L.m) \cup FKeys(R.m)})
 
+\* the single table a predicate is a factor of ({} when none): as-is only Column instances are looked at;
+\* repaired ("refelem") every element counts, so a predicate touching a reference is no factor
+FactorTable(x) == IF "refelem" \in Fixed /\ \E e \in Elems(x) : ~IsColumn(e) THEN {}
+                  ELSE IF Cardinality(ColumnOrigins(x)) = 1 THEN ColumnOrigins(x) ELSE {}
 RECURSIVE Factors(_)
 Factors(x) ==
     IF x.f = "op" /\ x.op \in Compare \cup NullTest
-    THEN FOk(IF Cardinality(ColumnOrigins(x)) = 1 THEN {[t |-> CHOOSE o \in ColumnOrigins(x) : TRUE, p |-> x]} ELSE {})
+    THEN FOk({[t |-> o, p |-> x] : o \in FactorTable(x)})
     ELSE IF x.f = "op" /\ x.op \in {"and", "or"} THEN FMerge(Factors(x.args[1]), Factors(x.args[2]), x.op)
-    ELSE IF x.f = "op" /\ x.op = "not" THEN Factors(x.args[1])      \* un-negated
-    ELSE FCrash("nonpredicate")
+    ELSE IF x.f = "op" /\ x.op = "not"
+    THEN IF "not" \in Fixed
+         THEN (IF Factors(x.args[1]).crash # "" THEN Factors(x.args[1]) ELSE FOk({[t |-> o, p |-> x] : o \in FactorTable(x)}))
+         ELSE Factors(x.args[1])      \* un-negated
+    ELSE IF "nonpredicate" \in Fixed THEN FOk({}) ELSE FCrash("nonpredicate")
 
 (* ---------------- parser.Container.Context / Visitor ---------------- *)
 \* context: fields / facts = the Tables segments (pairs keyed by table), seen = context.origins, plus the
@@ -68,7 +88,20 @@ FilterF(ctx, x) ==                                                              
     IF fr.crash # "" THEN [ctx EXCEPT !.crash = fr.crash]
     ELSE [SelectF(ctx, {x}) EXCEPT !.facts = @ \cup fr.m]
 \* "if source.condition:" - None and an Equal of two different operands are falsy
-Truthy(c) == c.f # "nil" /\ ~(c.f = "op" /\ c.op = "eq" /\ c.args[1] # c.args[2])
+Truthy(c) == c.f # "nil" /\ ("eqjoin" \in Fixed \/ ~(c.f = "op" /\ c.op = "eq" /\ c.args[1] # c.args[2]))
+\* repaired ("outer"): row filters that are unsafe below an outer join are withdrawn (Visitor._protect_outer)
+RECURSIVE TablesUnder(_)
+TablesUnder(o) == IF o.t = "join" THEN TablesUnder(o.l) \cup TablesUnder(o.r) ELSE IF o.t = "table" THEN {o} ELSE {}
+IsPredicate(c) == c.f = "op" /\ c.op \in Compare \cup NullTest \cup Logical
+Protect(ctx, s) ==
+    IF "outer" \notin Fixed \/ s.kind \in {"inner", "cross"} \/ ctx.crash # "" THEN ctx
+    ELSE LET L == TablesUnder(s.l)
+             R == TablesUnder(s.r)
+             preserved == IF s.kind = "left" THEN L ELSE IF s.kind = "right" THEN R ELSE L \cup R
+             supplied == IF s.kind = "left" THEN R ELSE IF s.kind = "right" THEN L ELSE L \cup R
+             own == IF IsPredicate(s.on) /\ Factors(s.on).crash = "" THEN Factors(s.on).m ELSE {}
+             kept == {x \in ctx.facts : x.t \notin supplied \/ x \in own}
+         IN [ctx EXCEPT !.facts = {x \in kept : ~(x.t \in preserved /\ x \in own)}]
 RefElems(fs) == {e \in UNION {Elems(f) : f \in fs} : e.src.t = "ref"}
 
 RECURSIVE VisitS(_, _, _)
@@ -83,7 +116,7 @@ VisitS(s, ctx, p) ==
                                                     factors |-> mine])]
       [] s.t = "ref" -> LET c == VisitS(s.l, ctx, p \o "/l") IN [c EXCEPT !.seen = @ \cup {s}]
       [] s.t = "join" ->
-           LET c1 == IF Truthy(s.on) THEN FilterF(ctx, s.on) ELSE ctx
+           LET c1 == Protect(IF Truthy(s.on) THEN FilterF(ctx, s.on) ELSE ctx, s)
            IN VisitS(s.r, VisitS(s.l, c1, p \o "/l"), p \o "/r")
       [] s.t = "set" -> VisitS(StatementOf(s.r), VisitS(StatementOf(s.l), ctx, p \o "/l"), p \o "/r")
       [] s.t = "query" ->
